@@ -654,6 +654,25 @@ struct Oracle<'a> {
     polled_now: Vec<bool>,
 }
 
+/// a stage's view at a quiescent point: the stage's own property and C12 (C13 speaks about the view after each
+/// emitted batch and is judged by `after_batch`, the empty-batch test and the flavour comparison)
+fn view_tags(spec: &Stage) -> &'static str {
+    match spec.prop() {
+        "C09" => "C09|C12",
+        "C10" => "C10|C12",
+        _ => "C11|C12",
+    }
+}
+
+/// the end of a stage's stream: only C09/C10/C11 say when an adapter's stream ends
+fn own_tag(spec: &Stage) -> &'static str {
+    match spec.prop() {
+        "C09" => "C09",
+        "C10" => "C10",
+        _ => "C11",
+    }
+}
+
 fn stage_tags(spec: &Stage, batched: bool) -> &'static str {
     match (spec.prop(), batched) {
         ("C09", false) => "C09|C12",
@@ -740,7 +759,7 @@ impl<'a> Oracle<'a> {
                                 self.div("C08", "source stream ended while the vector is alive".into())
                             } else {
                                 self.div(
-                                    stage_tags(&self.h.chain[k - 1], self.h.batched),
+                                    own_tag(&self.h.chain[k - 1]),
                                     format!("stage {k} ({}) ended although its source stream has not", self.h.chain[k - 1].show()),
                                 )
                             };
@@ -753,7 +772,8 @@ impl<'a> Oracle<'a> {
                     self.idle[k] = false;
                     self.polled_now[k] = true;
                     if self.ended[k] {
-                        return self.div("C08|C09|C10|C11|C12", format!("tap {k} yielded an item after its end"));
+                        let tag = if k == 0 { "C08" } else { own_tag(&self.h.chain[k - 1]) };
+                        return self.div(tag, format!("tap {k} yielded an item after its end"));
                     }
                     if k + 1 <= self.n {
                         // the stage above consumed a new input: an armed limit change is over, and
@@ -972,11 +992,45 @@ impl<'a> Oracle<'a> {
         // The top stream said Pending. A stage whose input stream was not Pending at its last poll stopped
         // early: what it shows is then judged against what its input holds *now* (for the first stage: the
         // vector's contents at this moment), not against what it happened to consume.
-        let mut busy: Vec<usize> = (0..self.n).filter(|j| !self.idle[*j]).collect();
+        let busy: Vec<usize> = (0..self.n).filter(|j| !self.idle[*j]).collect();
         if busy.is_empty() && self.n >= 1 && !self.polled_now[0] && vals(&self.replicas[0]) != vals(contents) {
-            // the first stage answered without polling the source stream at all although the source has
-            // changed since: the same situation, the source stream cannot be blamed for what it was not asked
-            busy = vec![0];
+            // Some stage answered Pending without polling its input at all although the source has changed since
+            // (the source stream cannot be blamed for what it was not asked). That stage is the highest one whose
+            // input tap saw no poll; what it shows is judged against what its input holds now, composed from the
+            // vector's contents through the stages below it.
+            let kk = (1..=self.n).rev().find(|k| !self.polled_now[*k - 1]).unwrap();
+            let mut ideal: Vec<Item> = contents.to_vec();
+            let mut judgeable = !self.stop_for_known && self.armed.iter().all(|a| a.is_none());
+            for j in 1..kk {
+                let sp = self.h.chain[j - 1];
+                if matches!(sp, Stage::SortByKey) {
+                    judgeable = false;
+                }
+                let p = if sp.dynamic() { self.param_now(j) } else { self.limit_seen[j] };
+                ideal = view(&sp, p, &ideal);
+            }
+            if judgeable {
+                let spec = self.h.chain[kk - 1];
+                let p = if spec.dynamic() { self.param_now(kk) } else { self.limit_seen[kk] };
+                self.facts.early_stops += 1;
+                if !conforms(&spec, p, &ideal, &self.replicas[kk]) {
+                    return self.div(
+                        view_tags(&spec),
+                        format!(
+                            "at a quiescent point: stage {kk} ({}, parameter {p:?}) reported Pending without polling its input, which has changed; it shows {:?} while its input holds {:?} now",
+                            spec.show(),
+                            vals(&self.replicas[kk]),
+                            vals(&ideal)
+                        ),
+                    );
+                }
+            }
+            // harmless (or not judgeable): the replicas below that stage are stale by construction, nothing
+            // more can be said at this point
+            for q in &mut self.truncs {
+                q.clear();
+            }
+            return Ok(());
         }
         if busy.len() == 1 && !self.stop_for_known {
             let j = busy[0];
@@ -994,7 +1048,7 @@ impl<'a> Oracle<'a> {
                 self.facts.early_stops += 1;
                 if !conforms(&spec, p, &input_now, &self.replicas[j + 1]) {
                     return self.div(
-                        stage_tags(&spec, self.h.batched),
+                        view_tags(&spec),
                         format!(
                             "at a quiescent point: stage {} ({}, parameter {p:?}) reported Pending although its input stream had more items ready; it shows {:?} while its input holds {:?} now",
                             j + 1,
@@ -1036,13 +1090,18 @@ impl<'a> Oracle<'a> {
         let at_end = when.starts_with("at the end");
         for k in 1..=self.n {
             let spec = self.h.chain[k - 1];
+            // a stage below the top whose own stream did not answer Pending at its last poll has not claimed
+            // anything about its view yet (it may hold parked diffs nobody asked for)
+            if !at_end && k < self.n && !self.idle[k] {
+                continue;
+            }
             let p = if spec.dynamic() { self.param_now(k) } else { self.limit_seen[k] };
             // the properties speak about Pending points; when the stream ends, a limit announced after
             // the last Pending need not have been consumed: the last consumed one is accepted as well
             let ok_consumed = at_end && spec.dynamic() && conforms(&spec, self.limit_seen[k], &self.replicas[k - 1], &self.replicas[k]);
             if !ok_consumed && !conforms(&spec, p, &self.replicas[k - 1], &self.replicas[k]) {
                 return self.div(
-                    stage_tags(&spec, self.h.batched),
+                    view_tags(&spec),
                     format!(
                         "{when}: stage {k} ({}, parameter {p:?}) shows {:?}; its input is {:?}, expected {}{:?}",
                         spec.show(),
@@ -1234,14 +1293,15 @@ fn run_inner(h: &AdpHistory, prop: &str, known: &Known) -> Result<AFacts, Div> {
                         o.div("C08", "source stream is Pending although the vector was dropped".into())
                     } else {
                         o.div(
-                            stage_tags(&o.h.chain[k - 1], o.h.batched),
+                            own_tag(&o.h.chain[k - 1]),
                             format!("stage {k} ({}) is Pending although its source stream has ended", o.h.chain[k - 1].show()),
                         )
                     };
                 }
                 let c = contents(ob.as_ref().unwrap());
                 o.quiescent(&c)?;
-                let at = flag.wakes.load(std::sync::atomic::Ordering::SeqCst);
+                // (in same-waker mode a wake delivered during this very poll - a cooperative yield - counts)
+                let at = if same_waker { wakes_before } else { flag.wakes.load(std::sync::atomic::Ordering::SeqCst) };
                 *last_pending = Some((flag, at));
                 Ok(Some(false))
             }
